@@ -271,6 +271,13 @@ class Interp:
             return b
         raise Unsupported(f"unresolved name {name!r} (line {getattr(node, 'lineno', '?')})")
 
+    def frame_contract(self, key):
+        """contract that annotates the function whose body is being executed: the one under verification
+        (which may be a second contract 'path:qual#tag') for the target itself, the plain one otherwise"""
+        if self.current_target and key == self.current_target.split("#")[0]:
+            return self.reg.contracts.get(self.current_target)
+        return self.reg.contracts.get(key)
+
     # ---------------------------------------------------------------- statements
     def exec_block(self, stmts, env):
         for st in stmts:
@@ -283,7 +290,7 @@ class Interp:
             raise Unsupported(f"statement {type(st).__name__} (line {st.lineno})")
         m(st, env)
         if self.frame_fn and not self.spec:
-            c = self.reg.contracts.get(self.frame_fn[-1][0])
+            c = self.frame_contract(self.frame_fn[-1][0])
             if c is not None and c.ghost_after and isinstance(st, (ast.Expr, ast.Assign, ast.AugAssign, ast.Delete)):
                 g = c.ghost_after.get(ast.unparse(st))
                 if g:
@@ -491,7 +498,7 @@ class Interp:
             visit(node)
             self.loop_ordinals[id(node)] = ords
         o = self.loop_ordinals[id(node)].get(id(st))
-        c = self.reg.contracts.get(key)
+        c = self.frame_contract(key)
         if c is None or o is None:
             return None
         sp = c.loops.get(o)
